@@ -296,6 +296,7 @@ def tie(outdir, canon=None):
     order_only = 0
     nontrivial_keys = set()
     n_tie = n_oracle = 0
+    info = {}
     for c in impl:
         lst = results.get(c["shard"])
         if lst is None:
@@ -307,6 +308,9 @@ def tie(outdir, canon=None):
         if c.get("nontrivial"):
             nontrivial_keys.add(c.get("key") or json.dumps(c["input"], sort_keys=True))
         kind = c.get("kind", "tie")
+        if kind == "info":
+            info[m] = info.get(m, 0) + 1
+            continue
         if kind == "oracle":
             n_oracle += 1
         else:
@@ -325,6 +329,7 @@ def tie(outdir, canon=None):
         "cases": len(impl),
         "tie_cases": n_tie,
         "oracle_cases": n_oracle,
+        "model_info": info,
         "order_only_differences": order_only,
         "distinct_nontrivial": len(nontrivial_keys),
         "disagreements": disagreements,
